@@ -19,7 +19,8 @@ Local Open Scope Z_scope.
 
 (** The annotation-type constants the model uses are the ones the code uses now. *)
 Example C02_constants :
-  G_CHORD_SYMBOL = ANN_CHORD_SYMBOL /\ G_BEAT = ANN_BEAT /\ G_UNKNOWN = ANN_UNKNOWN.
+  G_CHORD_SYMBOL = ANN_CHORD_SYMBOL /\ G_BEAT = ANN_BEAT /\ G_UNKNOWN = ANN_UNKNOWN /\
+  DEFAULT_PRESERVE = [64; 66; 67] /\ DEFAULT_QPM = 120 * 2 ^ 20.
 Proof. repeat split; reflexivity. Qed.
 Print Assumptions C02_constants.
 
@@ -129,6 +130,27 @@ Theorem C02_max_end_is_last_note_end : forall ns,
   (max_end ns = 0 \/ exists n, In n ns /\ n_end n = max_end ns).
 Proof. exact max_end_spec. Qed.
 Print Assumptions C02_max_end_is_last_note_end.
+
+Theorem C02_extract_events_inside_piece : forall pres s ts ps,
+  extract_subsequences pres s ts = Ok ps ->
+  forall i a b p, nth_error (intervals ts) i = Some (a, b) -> nth_error ps i = Some p ->
+  Forall (fun e => tp_time e = 0 \/ 0 < tp_time e < b - a) (s_tempos p) /\
+  Forall (fun e => ts_time e = 0 \/ 0 < ts_time e < b - a) (s_tsigs p) /\
+  Forall (fun e => ks_time e = 0 \/ 0 < ks_time e < b - a) (s_ksigs p) /\
+  Forall (fun e => tx_time e = 0 \/ 0 < tx_time e < b - a) (chords_of p) /\
+  Forall (fun e => 0 <= tx_time e < b - a) (beats_of p) /\
+  Forall (fun e => cc_time e = 0 \/ 0 < cc_time e < b - a) (s_ccs p) /\
+  Forall (fun n => 0 <= n_start n < b - a /\ n_end n <= b - a) (s_notes p).
+Proof. exact extract_events_inside. Qed.
+Print Assumptions C02_extract_events_inside_piece.
+
+Theorem C02_extract_notes_order_independent : forall pres s s' ts ps ps',
+  Permutation (s_notes s) (s_notes s') ->
+  extract_subsequences pres s ts = Ok ps -> extract_subsequences pres s' ts = Ok ps' ->
+  forall i p p', nth_error ps i = Some p -> nth_error ps' i = Some p' ->
+  Permutation (s_notes p) (s_notes p').
+Proof. exact extract_notes_order_independent. Qed.
+Print Assumptions C02_extract_notes_order_independent.
 
 (** * trim_note_sequence *)
 Theorem C02_trim_spec : forall s a b,
